@@ -29,6 +29,8 @@ type World struct {
 	overlay map[string][]byte
 	rootPkg map[string]bool
 	modPath string
+	monitors map[string]*MonitorSpec // "pkg::Type.field"
+	condMon  map[string]*MonitorSpec // "pkg::Type.condfield"
 	constErr map[string]bool // "G:pkg.name" of error variables assigned only by their package initialiser
 	specErr []string
 }
@@ -191,6 +193,16 @@ func (w *World) addSpecFile(sf *SpecFile, pkgPath string) {
 	for _, gf := range sf.Ghosts {
 		w.ghosts[pkgPath+"::"+gf.Type+"."+gf.Field] = gf
 	}
+	for _, m := range sf.Monitors {
+		if w.monitors == nil {
+			w.monitors = map[string]*MonitorSpec{}
+			w.condMon = map[string]*MonitorSpec{}
+		}
+		w.monitors[pkgPath+"::"+m.Type+"."+m.Field] = m
+		for _, c := range m.Conds {
+			w.condMon[pkgPath+"::"+m.Type+"."+c] = m
+		}
+	}
 }
 
 func (w *World) specFor(fn *ssa.Function) *FuncSpec {
@@ -334,4 +346,19 @@ func (w *World) findConstErrGlobals() {
 			}
 		}
 	}
+}
+
+func namedKey(t types.Type) (string, bool) {
+	if p, ok := t.(*types.Pointer); ok {
+		t = p.Elem()
+	}
+	n, ok := t.(*types.Named)
+	if !ok {
+		return "", false
+	}
+	pkg := ""
+	if n.Obj().Pkg() != nil {
+		pkg = n.Obj().Pkg().Path()
+	}
+	return pkg + "::" + n.Obj().Name(), true
 }
